@@ -263,20 +263,29 @@ def part_b(ctx):
                         cls = "haploid_lpl_fill" if (ploidy == 1 and got[:nloc] == want[:nloc] and all(w == -2 for w in want[nloc:])) else None
                         ctx.fail(dict(doc, record=v, sample=s), {"class": cls, "gt": gt, "lpl": got, "expected": want},
                                  f"stored LPL of call {gt} (ploidy {ploidy}) is {got}, expected {want}")
-    # ploidy 3 must be rejected
+    # ploidy 3 must be rejected: alone, before and AFTER diploid records of the same / another number of alleles
     hdr = hdr0
-    recs = ["chr1\t10\t.\tA\tC,G\t.\tPASS\tDP=1\tGT:PL:AD\t0/1/2:1,2,3,4,5,6,7,8,9,10:1,2,3"]
-    pth = vcfgen.make_indexed(d, "tri", vcfgen.vcf_text(hdr, recs, ("s0",)))
-    out = os.path.join(d, "t.vcz")
-    doc = dict(part="e2e", ploidy=3)
-    ctx.case(doc, nontrivial=True)
-    try:
-        vcf2zarr.convert([pth], out, worker_processes=0, local_alleles=True)
-        ctx.fail(doc, {}, "a triploid record was localised instead of being rejected")
-    except ValueError:
-        pass
-    except Exception as e:  # noqa: BLE001
-        ctx.fail(doc, dict(error=type(e).__name__), "triploid record: unexpected exception class")
+    dip1 = "chr1\t{pos}\t.\tA\tC\t.\tPASS\tDP=1\tGT:PL:AD\t0/1:1,2,3:1,2"
+    dip2 = "chr1\t{pos}\t.\tA\tC,G\t.\tPASS\tDP=1\tGT:PL:AD\t1/2:1,2,3,4,5,6:1,2,3"
+    tri1 = "chr1\t{pos}\t.\tA\tC\t.\tPASS\tDP=1\tGT:PL:AD\t0/0/1:11,0,13,14:1,2"
+    tri2 = "chr1\t{pos}\t.\tA\tC,G\t.\tPASS\tDP=1\tGT:PL:AD\t0/1/2:1,2,3,4,5,6,7,8,9,10:1,2,3"
+    layouts = {"alone": [tri2], "first": [tri1, dip1, dip2], "after-same-width": [dip1, tri1], "after-both": [dip1, dip2, tri2, dip1],
+               "last": [dip2, dip1, dip2, tri1]}
+    for label, lay in layouts.items():
+        recs = [x.format(pos=10 + 5 * k) for k, x in enumerate(lay)]
+        pth = vcfgen.make_indexed(d, "tri", vcfgen.vcf_text(hdr, recs, ("s0",)))
+        out = os.path.join(d, "t.vcz")
+        shutil.rmtree(out, ignore_errors=True)
+        doc = dict(part="e2e", ploidy=3, layout=label)
+        ctx.case(doc, nontrivial=True)
+        ctx.count("triploid-layouts")
+        try:
+            vcf2zarr.convert([pth], out, worker_processes=0, local_alleles=True)
+            ctx.fail(doc, {}, f"a triploid record ({label}) was localised instead of being rejected")
+        except ValueError:
+            pass
+        except Exception as e:  # noqa: BLE001
+            ctx.fail(doc, dict(error=type(e).__name__), "triploid record: unexpected exception class")
     shutil.rmtree(d, ignore_errors=True)
 
 
